@@ -146,6 +146,13 @@ def store(cid):
                                         meta.get("demo_pkg"), st.get("demo_without_patch_rc"), st.get("demo_with_patch_rc"),
                                         st.get("pkgs"), st.get("existing_tests_with_patch_rc"))}
         meta["check"] = {k: v for k, v in st.items() if k.startswith("check_")}
+        if os.path.exists(dst + "/meta.json"):        # keep the lead's annotations (first run, cross coverage, ...)
+            prev = json.load(open(dst + "/meta.json"))
+            for k, v in prev.items():
+                if k not in meta:
+                    meta[k] = v
+            if prev.get("check") and prev["check"] != meta["check"] and "first_check" not in meta:
+                meta["first_check"] = prev["check"]
         json.dump(meta, open(dst + "/meta.json", "w"), indent=1)
         print("stored", dst)
 
